@@ -3,6 +3,8 @@ from __future__ import annotations
 
 from typing import Any, Dict
 
+from . import components as comp
+
 EXTRACTION_DROPS = [
     "docstrings, type annotations and `# type:` comments",
     "decorators are recorded but not executed (docstring_from/inherit_docstring are given the separately verified contract 'returns _validate(f, unsupported_args)'; format_docstring/dataclass/staticmethod/property by their Python meaning)",
@@ -31,6 +33,7 @@ _p(
     level="proof",
     trusted_base=SMT + ["pyvc/torchmodel.py: assumed contracts of torch ops", "contracts/summaries.py: callee contracts, each verified against its body in the same run"],
     assumptions=[A1, A2, A7, "precondition: all floating tensor arguments of one call share a dtype; mult > 0; 0 <= p < 1; dims >= 1; documented constraint names; normalized_shape rank enumerated 1..3; conv1d input 2-D or 3-D"],
+    components=[comp.validators(["algebra", "shapes"])],
     explanation="For each of the 16 public ops and each discrete configuration (constraint name, bias/weight presence, reduction, rank of logits / normalized_shape) the real function body is executed symbolically for ALL shapes (symbolic rank and dims), ALL hyper-parameter values and ALL tensor values; the postcondition result == k*reference with k>0, k data-independent (k==1 for losses/norms/embedding), equal shape and dtype, and the frame condition are discharged per path by z3.",
     uncovered=["dtype clause is proved at the level of torch's promotion rules (A2), not of rounding", "argument guard: see C01:docs._validate obligations (call shapes enumerated exhaustively)"],
 )
@@ -39,6 +42,7 @@ _p(
     level="proof",
     trusted_base=SMT + ["pyvc/tensor.py symbolic reverse mode; VJPs of torch ops uninterpreted and linear in g (A2)"],
     assumptions=[A1, A2, A7],
+    components=[comp.validators(["algebra"])],
     explanation="Symbolic reverse-mode over the same symbolic run as C01: for every differentiable input grad == b*reference gradient with b>0 and b free of tensor values and of the upstream gradient; _ScaledGrad.forward/backward are executed from source and scale_fwd/scale_bwd proved equal to their contracts for every real factor (zero and negative included).",
 )
 _p(
@@ -46,6 +50,7 @@ _p(
     level="proof",
     trusted_base=SMT + ["term-count spec functions of the reference torch ops (trusted/validate_torch.py measures them on all-ones tensors)"],
     assumptions=[A1, A2, A7, "term counts are facts about torch ops (assumed contracts), validated by measurement on randomised shapes every run"],
+    components=[comp.validators(["terms", "shapes"])],
     explanation="With constraint None and default scale powers: scale^2 * terms == 1 for the output and every gradient of linear, matmul, conv1d, add, embedding, dropout, mse_loss, layer_norm/rms_norm gains; nonlinear real arithmetic over symbolic shapes.",
 )
 _p(
@@ -53,6 +58,7 @@ _p(
     level="proof",
     trusted_base=SMT + ["Lean 4.33 + Mathlib for the n-ary mean inequalities (lean/Means.lean)"],
     assumptions=[A1, A2, A7, "A8: identity of the z3 spec functions (nth root of product, n/sum of reciprocals, sum/n) and their Lean twins is by inspection"],
+    components=[comp.lean(["amean_perm", "gmean_perm", "hmean_perm", "gmean_le_amean", "hmean_le_gmean", "hmean_le_amean", "means_between", "gmean_pow", "min_le_hmean", "amean_le_max"])],
     explanation="apply_constraint and the rule functions are proved equal to their contracts for every name bound in the module namespace plus a fresh name; each op taking a constraint is run with the constraint and with None in the same symbolic state and k == b_i == rule(k_None, b_None...) is discharged; mean inequalities for all n in Lean, n<=2 second opinion in z3.",
 )
 
@@ -66,6 +72,7 @@ _p(
     level="proof",
     trusted_base=SMT + ["Lean 4.33 + Mathlib: stack_sum_sq (induction over stacking depth)"],
     assumptions=[A1, A2, A7, "the branch function f is an arbitrary uninterpreted function with an uninterpreted VJP linear in the upstream gradient; stacking to any depth follows by instantiating f with another layer (compositional contract) and the inductive Lean lemma stack_sum_sq"],
+    components=[comp.lean(["stack_sum_sq"])],
     explanation="residual_split, residual_add and residual_apply are executed symbolically with an uninterpreted branch f and tau>0: value == (x + tau f(x))/sqrt(1+tau^2) (weights as exact algebraic characterisations), squares of the weights sum to 1, gradient at x == g/sqrt(1+tau^2) + tau/sqrt(1+tau^2) vjp_f(x;g), gradient entering f's output == g, residual_apply == split/f/add through the two callee contracts.",
 )
 _p(
@@ -80,6 +87,7 @@ _p(
     level="proof",
     trusted_base=SMT + ["trusted/validate_torch.py: SGD / AdamW zero-gradient step formula (assumed, validated at run time)"],
     assumptions=[A1, A7, "extra group options are represented by two opaque-valued keys (the code compares keys only with the three literal names)", "optimizer step formulas p <- p(1 - lr*wd) for zero gradients are assumed (A6) and validated numerically"],
+    components=[comp.validators(["optim"])],
     explanation="Loop-invariant proof of scaled_parameters (initiation: result == [] at loop entry; preservation: an arbitrary iteration of the outer and of the inner loop appends exactly one group mk(entry, param) after the earlier ones; use: the returned list): one parameter per group, same parameter object, every other option carried over by identity, caller's dict / list / lr tensor never written, scaled tensor lr is a fresh tensor, lr*wd == requested decay (independent) or wd passed through.",
 )
 
@@ -90,6 +98,7 @@ _p(
     technique="contract-based deductive verification, bit-precise: FPFormat.quantise executed from the real AST into SMT FP/BV terms; obligations discharged by z3 for all 2^32 float32 inputs per format",
     trusted_base=["pyvc (self-written AST->SMT VC generator over the real source)"] + BITP + ["bitmodel.repr_pred: value-set specification on float32 patterns (cross-checked against an exact Fraction enumeration by trusted/validate_formats.py)"],
     assumptions=[A7, "torch primitive semantics as listed in pyvc/bitmodel.py (assumed; validated at run time, bounded)", "inputs: every non-NaN float32 bit pattern (|x| < 2^126 when E = 8); formats enumerated: quick 6 formats, thorough all 168 (E 2..8, M 0..23)", "float64 / bfloat16 / float16 inputs: proved equal to the float32 path composed with the conversions (element model), for rank 1 and rank 2 shapes with symbolic dims; 'idempotent' is the consequence of 'representable' and 'representable input unchanged' (both for all inputs)"],
+    components=[comp.validators(["bits"])],
     explanation="For each format the result element of the real quantise body is an SMT term over the input's float32 pattern; representable, sign, saturation, neighbour (no representable value strictly between), nearest (exact 280-bit scaled-integer distances; slack only below 2^emin), fix-point, odd symmetry, monotonicity (two variables), dtype/shape/frame and the three range properties are discharged by z3 for ALL inputs.",
 )
 
@@ -99,5 +108,26 @@ _p(
     technique="contract-based deductive verification, bit-precise: the random draw is a universally quantified bit-vector; probabilities are COUNTED from a proved threshold form",
     trusted_base=["pyvc (self-written AST->SMT VC generator over the real source)"] + BITP,
     assumptions=[A7, "torch.randint(0, 2^s, shape) yields per-element independent uniform integers (assumed); the check proves it is called once with size == x.shape and range [0, 2^s)", "inputs: every finite float32 bit pattern and every draw R in [0, 2^srbits); formats E 2..7, M 0..10, srbits 1..12 and default: quick 10 triples, thorough all 858"],
+    components=[comp.validators(["bits"])],
     explanation="For all x and all R: the result is representable, one of the two neighbours of the clamped input, never moves a representable input; it rounds away from zero exactly when R >= 2^s - rnd(d/2^(D-s)) where d/2^D is the fractional position between the neighbours (pattern-space lemmas about the value set, normal range; RNE-scaled position with error <= 2^-(D+1) below 2^emin); counting lemmas (LIA) turn the threshold into P(away) = rnd(d/2^(D-s))/2^s, exact when s = D and within 2^-(s+1) otherwise.",
+)
+
+NN = ["pyvc/nnmodel.py: assumed contracts of torch.nn base constructors, nn.Parameter, nn.init (validated at run time, bounded)"]
+_p(
+    "C08",
+    level="proof",
+    technique="contract-based deductive verification: symbolic object execution of __init__/forward of every module class from the real AST; delegation/option/tag obligations are identities over symbolic constructor arguments",
+    trusted_base=SMT + NN + ["recording contracts for unit_scaling.functional ops (their own contracts: C01/C02/C05)", "contract of unit_scaling.parameter.Parameter (verified against its body under C09)"],
+    assumptions=[A7, "torch.nn base-class constructors set the attributes listed in pyvc/nnmodel.py and nn.Linear/_ConvNd.__init__ call the virtual reset_parameters (assumed, validated at run time)", "the clause 'matches the same-named torch.nn module up to the scalars of C01/C02' is the corollary module == U.fn (proved here), U.fn == k * F.fn (C01), nn.Module.forward == F.fn on its attributes (assumed)", "einops.rearrange is an uninterpreted re-indexing"],
+    components=[comp.validators(["nn"])],
+    explanation="For every module class and every discrete configuration (bias on/off, padding mode, affine flags) with all other constructor arguments symbolic: forward is exactly one call of the corresponding unit_scaling.functional op whose every bound argument IS the module's own parameter / the constructor's option (or construction raises ValueError for a non-default unsupported option); fresh modules hold exactly the expected parameters, each produced by unit_scaling.Parameter with the expected mup_type, depth None and initial state N(0,1) / zeros / ones; depth containers tag every parameter with len(self) and refuse untagged ones (loop invariant); composite modules route every option to the consuming call.",
+)
+
+_p(
+    "C07",
+    level="proof",
+    trusted_base=SMT + ["Lean 4.33 + Mathlib: lean/Telescoping.lean (induction over depth)"] + NN,
+    assumptions=[A1, A7, "'contribution' of a layer is defined through the C06 contract of residual_add (x_{i+1} = (x_i + tau_i f_i)/sqrt(1+tau_i^2)); the link between the z3 step facts (hypotheses hS0/hstep/htau of the Lean theorems) and the Lean statements is by inspection (A8)", "'mean layer contribution relative to the embedding' is read as sqrt((sum attn^2 + sum mlp^2)/2)/embedding == residual_mult, the reading of the function's docstring and of tests/core/test_functional.py"],
+    components=[comp.lean(["S_pos", "one_add_tau_sq", "telescope", "S_eq_sum", "contrib2_eq", "emb2_eq", "sum_contrib", "sum_attn", "sum_mlp", "attn_mlp_ratio_sq", "mean_vs_embedding_sq"])],
+    explanation="The real closure _tau(index, layers) is executed symbolically for ALL depths and both parities: tau>0 and tau^2*S(index) == a(index)^2 with S(i+1) == S(i)+a(i)^2, S(0) == layers/2 (z3, exact reals); Lean proves by induction that these step facts give squared contributions summing to 1, equal attention / equal MLP contributions, the requested attn:MLP ratio and multiplier, for every depth. TransformerStack.__init__ is executed with a symbolic number of layers and a generic index i: layer i gets rule(2i, 2*layers) and rule(2i+1, 2*layers), and TransformerLayer.forward uses the attention tau in the first split/add pair and the MLP tau in the second.",
 )
